@@ -16,6 +16,9 @@ import ModVerif.Proofs.EditRefineNoPanic
 import ModVerif.Proofs.EditRefineInvBulk
 import ModVerif.Proofs.EditRefineInvCheck
 import ModVerif.Proofs.EditRefineInvWork
+import ModVerif.Proofs.EditMoreStartW
+import ModVerif.Proofs.EditMoreSepG
+import ModVerif.Proofs.EditMoreNoPanic
 namespace ModVerif.Props.C15
 open ModVerif ModVerif.EditSpec ModVerif.Modfile
 
@@ -260,5 +263,140 @@ example : ∀ op ∈ ([.addModule (B "example.com/m"), .addGo (B "1.21"), .addRe
 /-- non-vacuity: a session in which a later op works on what an earlier one created -/
 example : (run stdValidity {} [.addNewRequire (B "a") (B "v1.0.0") true, .addRequire (B "a") (B "v1.1.0"), .cleanup]).require
     = [⟨B "a", B "v1.1.0", true⟩] := by decide +kernel
+
+/-! ### The universal start state, SetRequireSeparateIndirect, every go.mod operation (Proofs/EditMore*.lean) -/
+
+/-- Recorded finding (known_findings.json, `c15-typed-vs-reparse:empty-block-suffix-comment`): a one-line EMPTY block keeps
+    an end-of-line comment on the `LineBlock` itself (`assignComments` only skips statements that span two lines).  An Add
+    operation puts a line into that block, Cleanup collapses the one-line block and hands the block's comment to the
+    line: `require () // indirect` + `AddRequire(a.b/c, v1.0.0)` + Cleanup gives `require a.b/c v1.0.0 // indirect` — the
+    typed list says direct, the formatted file and its strict re-parse say indirect.  Witness on the model (reproduced on
+    the implementation).  This is exactly the case excluded by the hypothesis `Edit.NoBlockSuffix` of `parseStrict_inv`. -/
+theorem C15_violated_empty_block_suffix_comment :
+    Edit.outcomeIs (Edit.sessionMod (B "module m\nrequire () // indirect\n") [.addRequire (B "a.b/c") (B "v1.0.0")])
+      (fun o => o.typed.require == [⟨B "a.b/c", B "v1.0.0", false⟩] &&
+                (o.reparsed.map (·.require)) == some [⟨B "a.b/c", B "v1.0.0", true⟩] &&
+                o.out == B "module m\n\nrequire a.b/c v1.0.0 // indirect\n") = true := by
+  decide +kernel
+
+/-- the same session on the multi-line form of the empty block keeps the requirement direct (the witness is specific to
+    the one-line form `verb () // comment`) -/
+example :
+    Edit.outcomeIs (Edit.sessionMod (B "module m\nrequire (\n) // indirect\n") [.addRequire (B "a.b/c") (B "v1.0.0")])
+      (fun o => o.typed.require == [⟨B "a.b/c", B "v1.0.0", false⟩] &&
+                (o.reparsed.map (·.require)) == some [⟨B "a.b/c", B "v1.0.0", false⟩]) = true := by
+  decide +kernel
+
+/-- **The universal start-state lemma (`typed_eq_tree` (i)), go.mod.**  EVERY file accepted by the strict parser (no version
+    fixer, as in `sessionMod`) whose directives have non-empty keys (`WellFormedKeys`: observation O5) satisfies the tree
+    invariant after `load` — the parser rewrites each directive's tokens to exactly the rendering `Edit.entries` expects
+    (File.add verb by verb on C20's `add_eq`, `parseReplace`, `parseVersionInterval`), numbers the lines pairwise
+    differently (C20 `parse_ids_nodup`), sets the `inBlock` flags (`parse_flags`) and rejects blocks without a single verb.
+    `NoBlockSuffix`: no `LineBlock` carries an end-of-line comment; false only for a one-line empty block
+    `verb () // comment` — the recorded finding `C15_violated_empty_block_suffix_comment`.  Also: the start condition
+    `StartOK` of C08's `refines_abs_typed` is just `WellFormedKeys` for a strictly parsed file. -/
+theorem parseStrict_inv (name data : Bytes) (f : File) (h : parseToFile name data none true = .ok f)
+    (hk : Edit.WellFormedKeys f) (hs : Edit.NoBlockSuffix f.syn) : Edit.Inv (Edit.load f) ∧ Edit.StartOK f :=
+  ⟨Edit.parseStrict_inv h hk hs, Edit.parseStrict_startOK h hk⟩
+
+/-- … and go.work (`parseWork`, `Edit.InvW`, `WorkStartOK`) -/
+theorem parseWork_inv (name data : Bytes) (f : WorkFile) (h : parseWork name data none = .ok f)
+    (hk : Edit.WorkKeys f) (hs : Edit.NoBlockSuffix f.syn) : Edit.InvW (Edit.loadWork f) ∧ Edit.WorkStartOK f :=
+  ⟨Edit.parseWork_invW h hk hs, Edit.parseWork_startOK h hk⟩
+
+/-- **SetRequireSeparateIndirect preserves the invariant** (block surgery: `ensureBlock`, inserted empty blocks, moved
+    lines under fresh ids), under the same hypotheses as `setRequire_preserves_inv` -/
+theorem setRequireSeparateIndirect_preserves_inv (e e' : Edit.EFile) (want : List Edit.Want)
+    (perm : List Edit.Want → List Edit.Want) (hperm : ∀ l, (perm l).Perm l) (hg : Edit.GoodWant want) (hi : Edit.Inv e)
+    (hlive : ∀ r ∈ e.f.require, Edit.liveRq r = true) (hset : Edit.NoNestedIndirectMarker e)
+    (h : Edit.setRequireSeparateIndirect e want perm = .ok e') : Edit.Inv e' :=
+  Edit.setRequireSeparateIndirect_inv e e' want perm hperm hg hi hlive hset h
+
+/-- **one operation preserves the invariant — EVERY go.mod operation.**  `Edit.ValidArgsAll e op`: the argument
+    conditions of `op_preserves_inv`, and for the two bulk requirement setters: distinct non-empty paths, every typed
+    requirement live (a Cleanup has just run) and `NoNestedIndirectMarker`. -/
+theorem op_preserves_inv_all (e e' : Edit.EFile) (op : Edit.Op) (hv : Edit.ValidArgsAll e op) (hi : Edit.Inv e)
+    (h : Edit.applyMod e op = some (.ok e')) : Edit.Inv e' :=
+  Edit.applyMod_inv_all e e' op hv hi h
+
+/-- **typed_eq_tree (partial 3): every strictly parsed well-formed starting file, every go.mod operation.**  From the
+    strict parse `f` of any go.mod text, with well-formed keys and `NoBlockSuffix`, after ANY session whose operations
+    have valid arguments in the state in which they run (`Edit.RunValid`: as `ValidArgsT`; a bulk requirement setter runs
+    on live requirements under `NoNestedIndirectMarker`) and the final Cleanup: the typed lists are the directive-level
+    reading of the syntax tree (`Edit.Inv`), and hold no cleared placeholder (`cleanup_no_cleared_entries`).
+    What is still missing for the full C15 statement: (a) discharging the state-dependent part of `RunValid` from a
+    condition on the starting file and the arguments (closure of `NoNestedIndirectMarker` along a session);
+    (b) the print/parse round trip of the tree (C02), where the recorded rationale / marker findings live. -/
+theorem typed_eq_tree_partial3 (name data : Bytes) (f : File) (ops : List Edit.Op) (e' : Edit.EFile) (res : List Bool)
+    (hf : parseToFile name data none true = .ok f) (hk : Edit.WellFormedKeys f) (hs : Edit.NoBlockSuffix f.syn)
+    (hv : Edit.RunValid (Edit.load f) ops) (h : Edit.runOps Edit.applyMod (Edit.load f) ops [] 0 = .done e' res) :
+    Edit.Inv (Edit.cleanup e') :=
+  Edit.typed_eq_tree_all (Edit.load f) e' ops res (Edit.parseStrict_inv hf hk hs) hv h
+
+/-- … and for go.work: every file accepted by `parseWork` with non-empty keys, every go.work operation -/
+theorem typed_eq_tree_work_from_parse (name data : Bytes) (f : WorkFile) (ops : List Edit.Op) (e' : Edit.EWork) (res : List Bool)
+    (hf : parseWork name data none = .ok f) (hk : Edit.WorkKeys f) (hs : Edit.NoBlockSuffix f.syn)
+    (hv : ∀ op ∈ ops, Edit.ValidArgsW op) (h : Edit.runOps Edit.applyWork (Edit.loadWork f) ops [] 0 = .done e' res) :
+    Edit.InvW (Edit.workCleanup e') :=
+  Edit.typed_eq_tree_work (Edit.loadWork f) e' ops res (Edit.parseWork_invW hf hk hs) hv h
+
+/-- non-vacuity of `parseStrict_inv` / `typed_eq_tree_partial3` / `op_preserves_inv_all`: a parsed go.mod (blocks, comments,
+    quoted path, an `// indirect; why` marker) has well-formed keys and no block suffix comment, and a session containing
+    both bulk setters (each after a Cleanup) has valid arguments in every state (`Edit.runValidB` is a sound Boolean test
+    of `RunValid`) and runs to completion -/
+example :
+    (match parseToFile (B "go.mod") (B "module \"example.com/m\"\n\ngo 1.21\n\nrequire (\n\texample.com/a v1.0.0 // indirect; why\n\t// keep\n\texample.com/b v1.2.3\n)\nrequire example.com/c v1.0.0 // c\nexclude example.com/b v1.0.0\nretract [v1.1.0, v1.2.0] // bad\n") none true with
+     | .ok f =>
+       Edit.startOKb f && f.syn.stmts.all (fun x => match x with
+         | .lineBlock b => b.comments.suffix.isEmpty
+         | _ => true) &&
+       (let ops : List Edit.Op := [.addRequire (B "example.com/d") (B "v1.0.0"), .cleanup,
+          .setRequireSeparateIndirect [⟨B "example.com/a", B "v1.4.0", false⟩, ⟨B "example.com/e", B "v1.0.0", true⟩, ⟨B "example.com/c", B "v1.0.0", true⟩] true,
+          .cleanup, .setRequire [⟨B "example.com/a", B "v1.5.0", true⟩] false, .addTool (B "example.com/t"), .cleanup]
+        Edit.runValidB (Edit.load f) ops &&
+        (match Edit.runOps Edit.applyMod (Edit.load f) ops [] 0 with
+         | .done e res => res.all id && Edit.invB e
+         | _ => false))
+     | .error _ => false) = true := by decide +kernel
+
+/-- non-vacuity of `parseWork_inv` / `typed_eq_tree_work_from_parse` -/
+example :
+    (match parseWork (B "go.work") (B "go 1.21\n\nuse (\n\t./a\n\t\"./b c\" // note\n)\nreplace example.com/a => ../a\ngodebug x=y\n") none with
+     | .ok f =>
+       f.godebug.all (fun g => !g.key.isEmpty) && f.use.all (fun u => !u.path.isEmpty) && f.replace.all (fun r => !r.old.path.isEmpty) &&
+       f.syn.stmts.all (fun x => match x with
+         | .lineBlock b => b.comments.suffix.isEmpty
+         | _ => true) &&
+       (match Edit.runOps Edit.applyWork (Edit.loadWork f) [.addUse (B "./d") [], .dropUse (B "./a"), .cleanup] [] 0 with
+        | .done _ res => res.all id
+        | _ => false)
+     | .error _ => false) = true := by decide +kernel
+
+/-- **nilDeref_unreachable (partial 2): the bulk requirement setters too.**  From a state satisfying the invariant, a session
+    of go.mod operations whose arguments are valid in the state in which each runs (`Edit.RunValid`; for SetRequire /
+    SetRequireSeparateIndirect: distinct non-empty paths, every typed requirement live — a Cleanup has just run, see
+    `cleanup_makes_requirements_live` — and `NoNestedIndirectMarker`) ALWAYS runs to completion: no nil `Syntax` dereference
+    (the setters dereference every requirement; all are live, so none is a cleared placeholder), no "two versions for one
+    path" panic (distinct paths), and `ensureBlock` is only called on an index the scan found, never on an "unexpected
+    statement" (`Edit.sepStage_total`); the final state satisfies the invariant.  Missing for the full statement: the
+    `NoNestedIndirectMarker` part of `RunValid` concerns marker correctness, not panics; removing it needs an invariant
+    without the marker clause (or the closure of `NoNestedIndirectMarker`, lean/PENDING.md). -/
+theorem nilDeref_unreachable_partial2 (e : Edit.EFile) (ops : List Edit.Op) (hi : Edit.Inv e) (hv : Edit.RunValid e ops)
+    (hm : ∀ op ∈ ops, Edit.IsModOp op) :
+    ∃ e' res, Edit.runOps Edit.applyMod e ops [] 0 = .done e' res ∧ Edit.Inv (Edit.cleanup e') := by
+  rcases Edit.runOps_total_all ops e [] 0 hv hm hi with ⟨e', res, h⟩
+  exact ⟨e', res, h, Edit.typed_eq_tree_all e e' ops res hi hv h⟩
+
+/-- after Cleanup every typed requirement is live (the state-dependent hypothesis of the bulk setters) -/
+theorem cleanup_makes_requirements_live (e : Edit.EFile) : ∀ r ∈ (Edit.cleanup e).f.require, Edit.liveRq r = true :=
+  Edit.cleanup_require_live e
+
+/-- non-vacuity of `nilDeref_unreachable_partial2`: a session with both bulk setters after drops that leave cleared
+    placeholders (Cleanup in between) has valid arguments throughout and consists of go.mod operations -/
+example :
+    let ops : List Edit.Op := [.addRequire (B "a") (B "v1.0.0"), .addNewRequire (B "b") (B "v1.0.0") true, .dropRequire (B "a"),
+      .cleanup, .setRequire [⟨B "b", B "v1.1.0", false⟩, ⟨B "c", B "v1.0.0", true⟩] true, .dropRequire (B "c"), .cleanup,
+      .setRequireSeparateIndirect [⟨B "d", B "v1.0.0", true⟩] false]
+    Edit.runValidB (Edit.load {}) ops = true := by decide +kernel
 
 end ModVerif.Props.C15
